@@ -162,6 +162,8 @@ class SubQueryLineageHolder(ColumnLineageMixin):
 
     def expand_wildcard(self, metadata_provider: MetaDataProvider) -> None:
         if tgt_table := self._get_target_table():
+            # columns the target has before any wildcard is expanded: only these are not overwritten by an expansion
+            target_columns = self.get_table_columns(tgt_table)
             for column in self.write_columns:
                 if column.raw_name == "*":
                     tgt_wildcard = column
@@ -182,6 +184,7 @@ class SubQueryLineageHolder(ColumnLineageMixin):
                                     src_table_columns,
                                     tgt_wildcard,
                                     src_wildcard,
+                                    target_columns,
                                 )
 
     def get_alias_mapping_from_table_group(
@@ -223,8 +226,8 @@ class SubQueryLineageHolder(ColumnLineageMixin):
         src_table_columns: list[Column],
         tgt_wildcard: Column,
         src_wildcard: Column,
+        target_columns: list[Column],
     ) -> None:
-        target_columns = self.get_table_columns(tgt_table)
         for src_col in src_table_columns:
             new_column = Column(src_col.raw_name)
             new_column.parent = tgt_table
@@ -233,10 +236,17 @@ class SubQueryLineageHolder(ColumnLineageMixin):
             self.graph.add_edge(tgt_table, new_column, type=EdgeType.HAS_COLUMN)
             self.graph.add_edge(src_col.parent, src_col, type=EdgeType.HAS_COLUMN)
             self.graph.add_edge(src_col, new_column, type=EdgeType.LINEAGE)
-        # remove wildcard
-        if self.graph.has_node(tgt_wildcard):
+        # remove the expanded wildcard pair; a wildcard that still feeds / is fed by another wildcard is kept
+        if self.graph.has_edge(src_wildcard, tgt_wildcard):
+            self.graph.remove_edge(src_wildcard, tgt_wildcard)
+        if self.graph.has_node(tgt_wildcard) and not self.get_source_columns(
+            tgt_wildcard
+        ):
             self.graph.remove_node(tgt_wildcard)
-        if self.graph.has_node(src_wildcard):
+        if (
+            self.graph.has_node(src_wildcard)
+            and self.graph.out_degree(src_wildcard) == 0
+        ):
             self.graph.remove_node(src_wildcard)
 
 
